@@ -86,7 +86,7 @@ func c04Struct(c *Ctx) {
 	for _, name := range []string{"rtp.(Header).MarshalTo", "rtp.(*Packet).MarshalTo"} {
 		fn := p.Func(name)
 		if fn == nil {
-			r.Fatalf("anchor %s missing", name)
+			missingAnchor(r, name)
 			continue
 		}
 		var buf ssa.Value
@@ -196,7 +196,7 @@ func c05Struct(c *Ctx) {
 	for _, name := range []string{"rtp.(*Header).SetExtension", "rtp.(*Header).DelExtension"} {
 		fn := p.Func(name)
 		if fn == nil {
-			r.Fatalf("anchor %s missing", name)
+			missingAnchor(r, name)
 			continue
 		}
 		recv := fn.Params[0]
